@@ -273,6 +273,48 @@ def utils_tables():
     return out
 
 
+# ------------------------------------------------------------------ small pure arithmetic functions (C19 logistic_map)
+
+SYN = "causationentropy/datasets/synthetic.py"
+
+
+def _arith(node, params):
+    """Python arithmetic expression over the function's parameters and numeric literals -> Lean term over Rat"""
+    if isinstance(node, ast.BinOp) and type(node.op) in (ast.Add, ast.Sub, ast.Mult, ast.Div):
+        op = {ast.Add: "+", ast.Sub: "-", ast.Mult: "*", ast.Div: "/"}[type(node.op)]
+        return f"({_arith(node.left, params)} {op} {_arith(node.right, params)})"
+    if isinstance(node, ast.UnaryOp) and isinstance(node.op, ast.USub):
+        return f"(-{_arith(node.operand, params)})"
+    if isinstance(node, ast.Name) and node.id in params:
+        return node.id
+    if isinstance(node, ast.Constant) and isinstance(node.value, (int, float)) and not isinstance(node.value, bool):
+        from fractions import Fraction
+        q = Fraction(node.value)
+        return f"(({q.numerator} : Rat) / {q.denominator})" if q.denominator != 1 else f"({q.numerator} : Rat)"
+    raise Untranslatable(f"not plain arithmetic: {ast.dump(node)[:80]}")
+
+
+def arithmetic_function(rel, name):
+    """`def name(a, b, ...): return <arithmetic>` (docstring allowed) -> (params, Lean term)"""
+    fn = _funcs(_parse(rel)).get(name)
+    if fn is None:
+        raise Untranslatable(f"{name} not found in {rel}")
+    body = [st for st in fn.body if not (isinstance(st, ast.Expr) and isinstance(st.value, ast.Constant) and isinstance(st.value.value, str))]
+    if len(body) != 1 or not isinstance(body[0], ast.Return) or fn.args.defaults or fn.args.kwonlyargs or fn.args.vararg or fn.args.kwarg:
+        raise Untranslatable(f"{name} is not a single `return <expression>`")
+    params = [a.arg for a in fn.args.args]
+    return params, _arith(body[0].value, params)
+
+
+def obligation_standalone(name: str, src: str):
+    """Compile a self-contained generated obligation file; returns (ok, output)."""
+    GEN.mkdir(parents=True, exist_ok=True)
+    f = GEN / f"{name}.lean"
+    f.write_text(src)
+    rc, out = lean_file(f)
+    return rc == 0 and "error" not in out and "sorry" not in out, out[-600:]
+
+
 # ------------------------------------------------------------------ emit + obligations
 
 def generate():
